@@ -36,5 +36,6 @@ _searchtotal_add("C07",
     "(composition of bot_dead_only_by_search with C04.getMove_total_tak; invariant EngTak c.size on the engine, NTak c.size on every position the bot holds: pinv_startBot_nTak, nTak_apply); bot_never_dead_minimax_declining - the same for the tree as it is "
     "(fixes/C07-fpa-script-declines.diff applied, 89e66ee) with RuleOK replaced by MovesOK, for ANY rule. The statement as written in C07_compose2 quantifies over every Search.Cfg and is false for Depth > 15 and for a table of 0 entries "
     "(C04.empty_table_panics); exactly these two are excluded (bot_never_dead_minimax_statement_of_cfg).",
-    "Still a hypothesis in the minimax forms: MovesOK / RuleOK and ChkOK. MovesOK follows from the events (movesOK_of_events) for a searcher that never answers the pass from ANY state; for the alpha-beta model that holds from EngInv states only "
-    "(C07_pv), so bot_never_dead_declining_events is not yet instantiated for it (needs movesOK_run relativised to the engine invariant).")
+    "bot_never_dead_minimax_events (END-TO-END, tree as it is: guard, record notes, declining scripts): Friendly with any rule or none / Taktician with the alpha-beta model, every event list in which no server line parses to the pass and with sane check verdicts (ChkOK): dead = none - "
+    "nothing is assumed about the searching player any more (it returns: C04.getMove_total_tak; it never answers the pass: Search.getMove_engOK + fromGen_not_pass; both engine invariants EngTak and EngInv are carried: EngBoth; movesOK_run_on / Compose.minv_composed_step_on = the fpatotal lemmas relativised to the engine invariant and the positions the bot holds). "
+    "Remaining hypotheses: ChkOK (the check engine's verdicts), no pass on the wire, Depth <= 15, table absent or non-empty; the searching player is the MODEL (tie: C04/C05/C16 correspondence).")
